@@ -12,11 +12,12 @@ DefReward == <<225>> \o Fill(28, 8)              \* reward account, key credenti
 RECURSIVE Default(_,_)
 Default(S, s) ==
   CASE s.k = "ref" -> Default(S, S[s.a])
-    [] s.k \in {"nf", "outmap"} -> Default(S, s.a)
+    [] s.k = "nf" -> Default(S, s.a[1])
+    [] s.k = "outmap" -> Default(S, s.a)
     [] s.k = "bigtag" -> T(s.a, Bs(<<1, 0, 0, 0, 0, 0, 0, 0, 0>>))
     [] s.k = "constr102" -> T(102, A(<<U(FromSmall(128)), A(<<>>)>>))
     [] s.k \in {"any", "uintmax"} -> U(Zero)
-    [] s.k \in {"uint", "posuint", "int", "nzint", "mdint"} -> U(One)
+    [] s.k \in {"uint", "posuint", "int", "nzint", "mdint", "u32"} -> U(One)
     [] s.k = "const" -> U(FromSmall(s.a))
     [] s.k = "null" -> Sp(246)
     [] s.k = "bool" -> Sp(245)
@@ -39,12 +40,14 @@ Default(S, s) ==
 RECURSIVE Variants(_,_)
 Variants(S, s) ==
   CASE s.k = "ref" -> Variants(S, S[s.a])
-    [] s.k \in {"nf", "outmap"} -> Variants(S, s.a)
+    [] s.k = "nf" -> Variants(S, s.a[1])
+    [] s.k = "outmap" -> Variants(S, s.a)
     [] s.k = "bigtag" -> {T(s.a, Bs(<<1, 2, 3>>)), T(s.a, Bs(<<0, 1, 0, 0, 0, 0, 0, 0, 0, 0>>)), T(s.a, Bs(<<255, 255, 255, 255, 255, 255, 255, 255>>)),
                           T(s.a, Bs(Fill(64, 9))), T(s.a, [k |-> "cbytes", s |-> Fill(65, 9)])}
     [] s.k = "constr102" -> {T(102, A(<<U(v), A(<<>>)>>)) : v \in {One, FromSmall(127), FromSmall(128), U64Max}}
     [] s.k = "mdint" -> {U(v) : v \in UVals} \cup {NI(v) : v \in UVals}
     [] s.k = "uint" -> {U(v) : v \in UVals}
+    [] s.k = "u32" -> {U(v) : v \in {Zero, FromSmall(23), FromSmall(24), FromSmall(255), FromSmall(256), FromSmall(65535), FromSmall(65536), Sub(Pow2(32), One)}}
     [] s.k = "posuint" -> {U(v) : v \in UVals \ {Zero}}
     [] s.k = "int" -> {U(v) : v \in UVals} \cup {NI(v) : v \in UVals}
     [] s.k = "nzint" -> {U(v) : v \in UVals \ {Zero}} \cup {NI(v) : v \in {Zero, FromSmall(23), FromSmall(24), Sub(P63, One)}}
@@ -73,7 +76,8 @@ K1(S, s, d) ==
   IF d = 0 THEN {} ELSE
   Variants(S, s) \cup
   (CASE s.k = "ref" -> K1(S, S[s.a], d - 1)
-     [] s.k \in {"nf", "outmap"} -> K1(S, s.a, d)
+     [] s.k = "nf" -> K1(S, s.a[1], d)
+     [] s.k = "outmap" -> K1(S, s.a, d)
      [] s.k = "constr102" -> {T(102, A(<<U(FromSmall(128)), x>>)) : x \in K1(S, s.a, d)}
      [] s.k = "tag" -> {T(s.a, x) : x \in K1(S, s.b, d)}
      [] s.k = "tagrange" -> {T(s.a, x) : x \in K1(S, s.c, d)}
